@@ -1,6 +1,7 @@
 (* C06 — in-process calls never share message memory between caller and handler. *)
 From Coq Require Import ZArith List Bool.
 From Grpchan Require Import lib.Heap model.Cloner proofs.C18 model.LateRead proofs.C06.
+From Grpchan Require model.LateWrite proofs.LateWrite.
 Import ListNotations.
 
 (* a send hands the peer a Clone of the caller's message: equal content, no shared memory
@@ -32,3 +33,28 @@ Print Assumptions C06_no_late_read_without_cancel.
    read the caller's message afterwards *)
 Theorem C06_no_late_read_refuted : exists s, reachable s /\ late_read (trace s) false = true.
 Proof. exact late_read_refuted. Qed.
+Print Assumptions C06_no_late_read_refuted.
+
+(* the response: whatever the interleaving of the server goroutine (enqueue the data frame, close), the
+   caller's loop (copy the frame into the caller's message, return on close, return on context) and
+   cancellation, the caller's response message is never written after Invoke has returned -- an
+   abandoned call's late answer stays in the channel *)
+Theorem C06_no_late_write : forall s,
+  Grpchan.model.LateWrite.reachable s ->
+  Grpchan.model.LateWrite.late_write (Grpchan.model.LateWrite.trace s) false = false.
+Proof. exact Grpchan.proofs.LateWrite.no_late_write. Qed.
+Print Assumptions C06_no_late_write.
+
+(* the correspondence check accepts an observed event trace of the real call only if the LTS can produce
+   it; what it accepts has no late write *)
+Theorem C06_accepted_trace_has_no_late_write : forall f t,
+  Grpchan.model.LateWrite.possible f Grpchan.model.LateWrite.init t = true ->
+  Grpchan.model.LateWrite.late_write t false = false.
+Proof. exact Grpchan.proofs.LateWrite.accepted_trace_has_no_late_write. Qed.
+Print Assumptions C06_accepted_trace_has_no_late_write.
+
+(* non-vacuity: the abandoned-then-answered run is reachable *)
+Theorem C06_abandoned_then_answered : exists s,
+  Grpchan.model.LateWrite.reachable s /\ Grpchan.model.LateWrite.returned s = true /\
+  Grpchan.model.LateWrite.sent s = true /\ Grpchan.model.LateWrite.copied s = false.
+Proof. exact Grpchan.proofs.LateWrite.abandoned_then_answered. Qed.
